@@ -93,6 +93,8 @@ class Combine(Harness):
             exp = PS.sem_domain(SX.read_text(union_domain_text(ks)))
             v = V.v_domain(comb)
             vn, en = _norm_domain(v), _norm_domain(exp)
+            import copy as _copy
+            vn_full = _copy.deepcopy(vn)
             if inp["dummy"]:
                 for nm in ("dummy-add-predicate-action", "dummy-del-predicate-action"):
                     if nm not in vn["actions"]:
@@ -117,11 +119,10 @@ class Combine(Harness):
                 return out[:3]
             # export / re-parse of the combination, then problems against it
             cpath = tmp / "combined_domain.pddl"
-            if inp["dummy"]:
-                return out
             DomainExporter().export_domain(comb, cpath)
             d2 = RA.outcome(RA.parse_domain_text, cpath.read_text())
-            if d2[0] != "ok" or _norm_domain(V.v_domain(d2[1])) != vn:
+            # (with dummy actions the exported text must declare what the dummy actions use, and read back to the same domain)
+            if d2[0] != "ok" or _norm_domain(V.v_domain(d2[1])) != vn_full:
                 out.append(Failure(clause="exporting and re-parsing the combined domain preserves it", expected="same view", observed=str(d2)[:300]))
                 return out
             rp = RA.outcome(MultiAgentProblemsConverter(tmp, "problem").combine_problems, cpath)
